@@ -41,8 +41,9 @@ class G:
         self.m.buffers.append(b)
         return len(self.m.buffers) - 1
 
-    def tensor(self, name, shape, dtype=TT.FLOAT32, data=None, buffer=None):
+    def tensor(self, name, shape, dtype=TT.FLOAT32, data=None, buffer=None, variable=False):
         t = s.TensorT()
+        t.isVariable = bool(variable)
         t.name = name.encode()
         t.shape = [int(x) for x in shape]
         t.type = dtype
@@ -137,6 +138,9 @@ def _const(rng, shape, kind=None, kinds=None):
     else:
         a = r.randn(n) * 50
     return a.astype(np.float32).reshape(shape)
+
+
+WEIGHT_HEAVY = ["FULLY_CONNECTED"] * 6 + ["CONV_2D", "DEPTHWISE_CONV_2D", "BATCH_MATMUL", "EMBEDDING_LOOKUP", "RESHAPE", "TANH", "ADD", "MUL", "ABS"]
 
 
 class Grower:
@@ -471,6 +475,24 @@ class Grower:
             opts.adjX, opts.adjY = False, adjy
             g.op(BO.BATCH_MATMUL, [x3, yv], [z], OPT.BatchMatMulOptions, opts)
             self.out(z, [1, b, n])
+        elif kind == "RNN":
+            # stateful cell: the hidden state lives in a VARIABLE tensor (what converters emit for Keras recurrent layers);
+            # never quantized itself, but everything downstream depends on the interpreter state being reset per sample
+            a = self.pick(2)
+            if not a:
+                return False
+            x, (b, f) = a
+            u = rng.randint(1, 3)
+            w_in = self.const([u, f], kind="normal", base="rk")
+            w_rec = self.const([u, u], kind="normal", base="rr")
+            bias = self.const([u], kind="small", base="rb")
+            h = self.g.tensor(self.name("state"), [b, u], variable=True)
+            y = self.new_act([b, u])
+            opts = s.RNNOptionsT()
+            opts.fusedActivationFunction = s.ActivationFunctionType.TANH
+            g.op(BO.RNN, [x, w_in, w_rec, bias, h], [y], OPT.RNNOptions, opts)
+            self.out(y, [b, u])
+            self.tags.add("stateful_rnn")
         elif kind == "EMBEDDING_LOOKUP":
             v, d, n = rng.randint(2, 4), rng.randint(1, 4), rng.randint(1, 3)
             ids = self.g.tensor(self.name("ids"), [n], TT.INT32)
@@ -487,7 +509,7 @@ class Grower:
 
 
 def grow_subgraph(g: G, rng, n_ops, prefix="", sig=None, kinds=None, share=0.0, shared_consts=None, p_unsupported=0.25,
-                  name_hazard=0.0, extra_outputs=0.3, allow_dead=0.1, const_output=0.0, const_kinds=None, alias_sig=None, bool_mask=0.06, sig_names=None):
+                  name_hazard=0.0, extra_outputs=0.3, allow_dead=0.1, const_output=0.0, const_kinds=None, alias_sig=None, bool_mask=0.06, sig_names=None, p_stateful=0.0, dup_output=0.0):
     g.subgraph(name=(prefix or "main").encode())
     gr = Grower(g, rng, prefix, shared_consts)
     gr.const_kinds = const_kinds
@@ -503,7 +525,9 @@ def grow_subgraph(g: G, rng, n_ops, prefix="", sig=None, kinds=None, share=0.0, 
     tries = 0
     while len(gr.op_kinds) < n_ops and tries < n_ops * 12:
         tries += 1
-        if kinds:
+        if p_stateful and rng.random() < p_stateful:
+            k = "RNN"
+        elif kinds:
             k = rng.choice(kinds)
         elif rng.random() < p_unsupported:
             k = rng.choice(Grower.UNSUPPORTED)
@@ -544,6 +568,10 @@ def grow_subgraph(g: G, rng, n_ops, prefix="", sig=None, kinds=None, share=0.0, 
             g.op(BO.GREATER, [src, thr], [mask])
             outs.append(mask)
             gr.tags.add("bool_output")
+    if dup_output and rng.random() < dup_output and outs:
+        # one tensor exported under two output names (`return {'logits': y, 'scores': y}`): listed twice, two signature entries
+        outs.append(rng.choice(outs))
+        gr.tags.add("duplicate_output")
     rng.shuffle(outs)
     # drop unused inputs (interpreter is fine with them, but keep graphs tidy): keep all
     if name_hazard and rng.random() < name_hazard and gr.produced:
@@ -593,7 +621,7 @@ def random_inputs(model_bytes, rng, sg_info=None, n=1, scale=None, spread=False)
     out = {}
     r = np.random.RandomState(rng.randrange(2 ** 31))
     if scale is None:
-        scale = rng.choice([1.0, 1.0, 1.0, 1.0, 3.0, 0.05, 1e-5])
+        scale = rng.choice([1.0, 1.0, 1.0, 1.0, 3.0, 0.05, 1e-5, 0.003, 0.003, 0.0004])   # small magnitudes: scales of 1e-7..1e-6 (absolute tolerances matter there)
     sigs = m.signatureDefs or []
     for sd in sigs:
         sg = m.subgraphs[sd.subgraphIndex]
@@ -705,6 +733,52 @@ def gen_tied(rng, shared_bias=0.0):
             outs.append(y)
             kinds.append("ELEMENTWISE_CONST")
             info["tags"].add("tied_elementwise")
+        if rng.random() < 0.3:
+            # the shared constant is ALSO read by an operator the quantizer does not know (GATHER is what converters emit for
+            # tf.gather / nn.Embedding; MAXIMUM stands for any elementwise op outside its table): that reader needs the float bytes
+            c = g.tensor(gr.name("wu"), [o, f], buffer=shared_buf) if rng.random() < 0.4 else w0
+            if rng.random() < 0.5:
+                n = rng.randint(1, 3)
+                ids = g.tensor(gr.name("gids"), [n], TT.INT32)
+                gr.inputs.append(ids)
+                gr.int_inputs.append((ids, o))
+                e = gr.new_act([n, f])
+                go = s.GatherOptionsT()
+                go.axis = 0
+                g.op(BO.GATHER, [c, ids], [e], OPT.GatherOptions, go)
+                gr.out(e, [n, f])
+                outs.append(e)
+                kinds.append("GATHER")
+            else:
+                xx = gr.add_input([o, f])
+                y = gr.new_act([o, f])
+                g.op(BO.MAXIMUM, [xx, c], [y], OPT.MaximumMinimumOptions, s.MaximumMinimumOptionsT())
+                gr.out(y, [o, f])
+                outs.append(y)
+                kinds.append("MAXIMUM")
+            info["tags"].add("tied_unknown_op_reader")
+        if rng.random() < 0.3:
+            # two SCALAR constants (shape []: one element) over one buffer, as converters de-duplicate `x + 0.5` and `x * 0.5`;
+            # a recipe may cover only one of the two readers
+            val = np.array(rng.choice([0.5, -1.25, 3.0]), np.float32)
+            c1 = g.tensor(gr.name("k"), [], data=val)
+            c2 = g.tensor(gr.name("k"), [], buffer=g.sg.tensors[c1].buffer)
+            src = outs[-1] if outs and g.sg.tensors[outs[-1]].type == TT.FLOAT32 and outs[-1] != w0 else x
+            shp = [int(v) for v in g.sg.tensors[src].shape]
+            y1, y2 = gr.new_act(shp), gr.new_act(shp)
+            g.op(BO.ADD, [src, c1], [y1], OPT.AddOptions, s.AddOptionsT())
+            second = rng.choice(["MUL", "SUB", "MAXIMUM"])
+            if second == "MUL":
+                g.op(BO.MUL, [src, c2], [y2], OPT.MulOptions, s.MulOptionsT())
+            elif second == "SUB":
+                g.op(BO.SUB, [src, c2], [y2], OPT.SubOptions, s.SubOptionsT())
+            else:
+                g.op(BO.MAXIMUM, [src, c2], [y2], OPT.MaximumMinimumOptions, s.MaximumMinimumOptionsT())
+            gr.out(y1, shp)
+            gr.out(y2, shp)
+            outs += [y1, y2]
+            kinds += ["ADD", second]
+            info["tags"].add("tied_scalars")
         if rng.random() < 0.2:
             # the shared buffer also backs a constant that NO operator reads: exported as a graph output, or just left in the table
             we = g.tensor(gr.name("w_export"), [o, f], buffer=shared_buf)
@@ -713,6 +787,92 @@ def gen_tied(rng, shared_bias=0.0):
             info["tags"].add("tied_unread_constant")
         g.io(gr.inputs, outs, sig=f"sig{si}" if nsg > 1 else "serving_default")
         info["subgraphs"].append({"sig": None, "int_inputs": [], "ops": kinds})
+    return g.bytes(), info
+
+
+def gen_tied_scalars(rng):
+    """nothing tied but SCALAR constants (shape []: one element) sharing one buffer, within one subgraph or across two signatures
+    (converters de-duplicate `x + 0.5` and `x * 0.5`); the readers are different operators, so a recipe can cover only one of them"""
+    nsg = rng.choice([1, 1, 2])
+    g = G()
+    info = {"tags": {"tied", "tied_scalars", "tied_scalars_only"}, "subgraphs": []}
+    val = np.array(rng.choice([0.5, -1.25, 3.0, 0.001]), np.float32)
+    shared = None
+    second_kinds = ["MUL", "SUB", "MAXIMUM", "ADD"]
+    for si in range(nsg):
+        prefix = f"s{si}/" if nsg > 1 else ""
+        g.subgraph(name=(prefix or "main").encode())
+        gr = Grower(g, rng, prefix)
+        x = gr.add_input([rng.randint(1, 2), rng.choice([2, 3, 4])])
+        if rng.random() < 0.5:
+            gr.emit(rng.choice(["TANH", "FULLY_CONNECTED", "ABS", "LOGISTIC"]))
+        src, shp = gr.acts[-1]
+        kinds = list(gr.op_kinds)
+        outs = []
+        readers = ["ADD"] + ([rng.choice(second_kinds)] if nsg == 1 or rng.random() < 0.3 else [])
+        if si > 0:
+            readers = [rng.choice(second_kinds)]
+        for kind in readers:
+            if shared is None:
+                c = g.tensor(gr.name("k"), [], data=val)
+                shared = g.sg.tensors[c].buffer
+            else:
+                c = g.tensor(gr.name("k"), [], buffer=shared)
+            y = gr.new_act(list(shp))
+            ins = [src, c] if rng.random() < 0.8 else [c, src]
+            if kind == "ADD":
+                g.op(BO.ADD, ins, [y], OPT.AddOptions, s.AddOptionsT())
+            elif kind == "MUL":
+                g.op(BO.MUL, ins, [y], OPT.MulOptions, s.MulOptionsT())
+            elif kind == "SUB":
+                g.op(BO.SUB, ins, [y], OPT.SubOptions, s.SubOptionsT())
+            else:
+                g.op(BO.MAXIMUM, ins, [y], OPT.MaximumMinimumOptions, s.MaximumMinimumOptionsT())
+            gr.out(y, list(shp))
+            outs.append(y)
+            kinds.append(kind)
+        g.io(gr.inputs, outs, sig=f"sig{si}" if nsg > 1 else "serving_default")
+        info["subgraphs"].append({"sig": None, "int_inputs": [], "ops": kinds})
+    return g.bytes(), info
+
+
+def gen_near_equal(rng):
+    """tensors whose ranges differ by a fraction of a percent to a few percent meet where parameters must be EQUAL (concatenation
+    operands, one tensor read by two consumers): returns (bytes, info); meant to be calibrated on small magnitudes, where scales are
+    1e-7..1e-6 and any absolute tolerance in a parameter comparison is a relative tolerance of percents"""
+    g = G()
+    g.subgraph()
+    gr = Grower(g, rng, "")
+    b, f = rng.randint(1, 2), rng.choice([2, 3, 4])
+    x = gr.add_input([b, f])
+    kinds = []
+    parts = [x]
+    for _ in range(rng.randint(1, 2)):
+        factor = rng.choice([1.0005, 1.003, 1.01, 1.02, 0.99, 0.975])
+        c = g.tensor(gr.name("near_one"), [1, 1], data=np.full([1, 1], factor, np.float32))
+        y = gr.new_act([b, f])
+        g.op(BO.MUL, [rng.choice(parts), c], [y], OPT.MulOptions, s.MulOptionsT())
+        gr.out(y, [b, f])
+        parts.append(y)
+        kinds.append("MUL")
+    rng.shuffle(parts)
+    z = gr.new_act([b, f * len(parts)])
+    co = s.ConcatenationOptionsT()
+    co.axis = 1
+    g.op(BO.CONCATENATION, parts, [z], OPT.ConcatenationOptions, co)
+    gr.out(z, [b, f * len(parts)])
+    kinds.append("CONCATENATION")
+    outs = [z]
+    if rng.random() < 0.5:
+        w = gr.new_act([b, f * len(parts)])
+        g.op(BO.ABS, [z], [w])
+        gr.out(w, [b, f * len(parts)])
+        outs = [w]
+        kinds.append("ABS")
+    if rng.random() < 0.4:
+        outs.append(rng.choice(parts[1:] or parts))
+    g.io(gr.inputs, outs, sig="serving_default")
+    info = {"tags": {"near_equal_ranges", "multi_consumer"}, "subgraphs": [{"sig": "serving_default", "int_inputs": [], "ops": kinds}]}
     return g.bytes(), info
 
 
